@@ -8,3 +8,11 @@ Theorem C04_Minesweeper_Source_mask_iff_legal rows cols nm re rm ri s a r c :
   (gat false (o_action_mask (state_to_observation nm s')) r c = true <-> JV.Model.Minesweeper.legal (s_board s') r c).
 Proof. exact (src_obs_mask_iff_legal rows cols nm re rm ri s a r c). Qed.
 Print Assumptions C04_Minesweeper_Source_mask_iff_legal.
+(* history form: from the generator's state (unexplored board), after ANY in-spec action sequence played through the translated step,
+   the mask of the translated observation is True exactly on the squares not played yet *)
+Theorem C04_Minesweeper_Source_mask_iff_not_played rows cols nm re rm ri locs acts r c : 0 < rows -> 0 <= cols ->
+  JV.Model.Minesweeper.valid_draw rows cols nm locs = true -> Forall (in_spec_p rows cols) acts -> 0 <= r < rows -> 0 <= c < cols ->
+  let s0 := fst (reset_from nm (mkState (repeat (repeat (-1) (Z.to_nat cols)) (Z.to_nat rows)) 0 locs)) in
+  (gat false (o_action_mask (state_to_observation nm (play_src nm re rm ri s0 acts))) r c = true <-> ~ In (r, c) acts).
+Proof. exact (fun H => src_mask_iff_not_played rows cols nm re rm ri H locs acts r c). Qed.
+Print Assumptions C04_Minesweeper_Source_mask_iff_not_played.
